@@ -587,6 +587,22 @@ fn c16_case(seed: u64, trace: bool) -> CaseOut {
     // let queued datagrams drain, then read whatever the non-reading receivers still hold
     let limit = ran.w.now + 5_000_000_000;
     let _ = ran.w.run(3_000, limit, |_| false);
+    // a sender that was told Blocked is told DatagramsUnblocked once there is room again
+    if !any_lost(&ran.w) {
+        let mut msgs = vec![];
+        for (ei, e) in ran.w.eps.iter().enumerate() {
+            for (ch, c) in &e.conns {
+                ran.w.mon.cnt.inc("c16.unblock_checks");
+                let p = c.c.verif_probe();
+                if c.app.dgram_blocked && p.dgram_outgoing.0 == 0 && !c.c.is_closed() && c.app.connected {
+                    msgs.push(format!("conn {ei}/{ch}: send() returned Blocked, the outgoing queue has drained (send_buffer_space {}), but DatagramsUnblocked was never emitted", c.tcfg.dgram_send_buf));
+                }
+            }
+        }
+        for m in msgs {
+            ran.w.mon.violate("C16", format!("{m} | {}", h.summary()));
+        }
+    }
     ran.w.read_all_datagrams(clean);
     finish_case(&h, ran, trace, "c16.recv")
 }
